@@ -145,13 +145,13 @@ def install_observers():
                 for a in attrs:
                     if a[0] == "color":
                         k = "font-color-none" if a[1] is None else "font-color"; break
-            self._rec["ev"].append(("S", k))
+            self._rec["ev"].append(("S", k, tag))
             try:
                 return super().handle_starttag(tag, attrs)
             except ValueError:
-                self._rec["ev"][-1] = ("S", "font-color-bad"); raise
+                self._rec["ev"][-1] = ("S", "font-color-bad", tag); raise
         def handle_endtag(self, tag):
-            self._rec["ev"].append(("E", "")); return super().handle_endtag(tag)
+            self._rec["ev"].append(("E", "", tag)); return super().handle_endtag(tag)
         def handle_data(self, data):
             self._rec["ev"].append(("D", str(data.count("\n")))); return super().handle_data(data)
         def feed(self, data):
